@@ -288,7 +288,10 @@ def bind_roles(fn, roles, where=""):
         elif kind == "for":
             cands = [tuple(t) if len(t) > 1 else t[0] for t in loop_targets_nested(fn, m)]
         elif kind == "return":
-            cands = list(dict.fromkeys(tuple(norm(e) for e in r.value.elts) for r in walk_own(fn) if isinstance(r, ast.Return) and isinstance(r.value, ast.Tuple)))
+            if idx is None:
+                cands = list(dict.fromkeys(r.value.id for r in walk_own(fn) if isinstance(r, ast.Return) and isinstance(r.value, ast.Name)))
+            else:
+                cands = list(dict.fromkeys(tuple(norm(e) for e in r.value.elts) for r in walk_own(fn) if isinstance(r, ast.Return) and isinstance(r.value, ast.Tuple)))
         elif kind == "recv":
             am = matcher(spec[2])
             cands = []
